@@ -18,8 +18,17 @@ import (
 
 // writeOne writes a frame through a fresh frame.Writer and returns the recorded calls.
 func writeOne(fr frame.Frame, drw *dialect.ReadWriter) (w *recWriter, err error) {
+	return writeOneKeyed(fr, drw, nil)
+}
+
+// writeOneKeyed: the forwarding writer belongs to an endpoint that signs what it originates (its own key,
+// ids and link id are configured); a frame passed to Write is forwarded, not originated.
+func writeOneKeyed(fr frame.Frame, drw *dialect.ReadWriter, own *[32]byte) (w *recWriter, err error) {
 	w = &recWriter{}
 	fw := &frame.Writer{ByteWriter: w, DialectRW: drw}
+	if own != nil {
+		fw.OutVersion, fw.OutSystemID, fw.OutComponentID, fw.OutSignatureLinkID, fw.OutKey = frame.V2, 201, 7, 9, keyOf(own)
+	}
 	if err = fw.Initialize(); err != nil {
 		return w, fmt.Errorf("BROKEN: writer init: %v", err)
 	}
